@@ -707,6 +707,13 @@ def check_translated(prop, tier, seed, replay):
                                  ['verdict tie-broken', 'broken translator tools/translate.py cannot regenerate Gen/*.lean from /repo'],
                                  [str(e)])
         violations.append([path, True])
+    # 1b. the C++ translator's ties that serve this property (mkarg / arg)
+    tie = dict(modules=[], obligations=0, discharged=0, theorems=[], broken=[], index=[])
+    if not replay:
+        tie = vlib.tie_check(prop, lean_dir)
+        for mod, what in tie['broken']:
+            path = vlib.write_replay(prop, tier, seed, 'tie-%s' % mod, ['verdict tie-broken', 'broken ' + what.split('\n')[0]], what.split('\n'))
+            violations.append([path, True])
     # 2. proofs over the regenerated tables
     built = True
     tmodel = os.path.join(lean_dir, '.lake', 'build', 'bin', 'tmodel')
@@ -842,11 +849,12 @@ def check_translated(prop, tier, seed, replay):
         final.append((path, nf))
     wall = time.time() - t0
     cov = dict(
-        obligations=audit['obligations'], discharged=audit['discharged'],
-        checker_cmd='python3 tools/translate.py && cd lean && lake build TrompModel.Props.%s && lake env lean .lake/audit_%s.lean' % (prop, prop),
+        obligations=audit['obligations'] + tie['obligations'], discharged=audit['discharged'] + tie['discharged'],
+        translated_functions=tie['index'],
+        checker_cmd='python3 tools/translate.py && python3 tools/cxx2lean.py && cd lean && lake build TrompModel.Props.%s TrompModel.Tie.Mkarg && lake env lean .lake/audit_%s.lean' % (prop, prop),
         trusted_base=TRUSTED_BASE[:3] + ['translator tools/translate.py (preprocessor output and static_assert expressions -> Lean tables), '
                                          'validated against g++ by the compile farm', 'g++ 12.2 implements static_assert / templates / macros as the standard says'],
-        theorems=[dict(name=n, axioms=a) for n, a in audit['theorems']],
+        theorems=[dict(name=n, axioms=a) for n, a in audit['theorems'] + tie['theorems']],
         programs=max(nprog, 1), disagreements_checked=ndis, traces_validated_against_impl=nprog - ndis,
         evaluations=max(nprog, 1), distinct_nontrivial=max(nprog, 2),
         rule='every generated/shipped program is distinct; each is compiled against the current headers and compared with the prediction',
